@@ -202,6 +202,22 @@ def rule_clonecover(ctx):
                         not any(x[0] == 'field' for x in walk(e))
                     ok = from_self or fresh
                     what = 'cache field %s is fresh or copied from self' % n
+                    fty = [fl for fl in anchors.fields(f.adts[adt]) if fl['name'] == n][0]
+                    shared = from_self and anchors.shape_is(fty['shape'], 'sync::Arc') and e[0] == 'call' and \
+                        e[1].rsplit('::', 1)[-1] == 'clone' and e[2] and e[2][0][0] == 'ref' and e[2][0][1][0] == 'field'
+                    if shared:
+                        # the clone and the original keep using ONE cache: only sound if the data it is derived from can never
+                        # diverge, i.e. no function mutates a data field of this type
+                        dfl = set(data_fields(f, adt) or [])
+                        muts = [bb.path for bb in f.body_list if bb.promoted is None for fld in dfl
+                                for _pt, role, _pl, _nd, _rest in bb.field_accesses(adt, fld) if role in ('mutref', 'write', 'drop')]
+                        ok2 = not muts
+                        r.site('%s::clone: cache field %s is shared with the original; the type has no mutator of its data' % (adt, n),
+                               s['s'], 'ok' if ok2 else 'violation')
+                        if not ok2:
+                            r.violation('%s:%s:shared-cache' % (adt, n), s['s'], cl.path,
+                                        'clone shares cache `%s` with its original (Arc clone) although the data it is computed from can be '
+                                        'mutated independently afterwards (%s): one side\'s recomputation corrupts the other' % (n, sorted(set(muts))[:2]))
                 else:
                     ok = from_self
                     what = 'data field %s is copied from self.%s' % (n, n)
